@@ -107,6 +107,28 @@ R2.update({
  "C11-5": ("/tmp/seeds4/D/2", "C11", ">= 9 chunks queued, the pop that leaves len <= capacity/4, and an abort landing between the reader's unlock and re-lock (queue taken out for shrink_to_fit, put back over the Err state)", ["C10"]),
 })
 
+# fifth round: under-seeded properties and "two cooperating sites"
+R2.update({
+ "C02-3": ("/tmp/seeds5/A/1", "C02", "multipart whose specs are not in ascending start order (40-49,5-9 / -6,0-9): the stream sorts ranges while the part headers stay in request order, parts carry each other's bytes", ["C06"]),
+ "C05-4": ("/tmp/seeds5/A/2", "C05", "an If-Range that FAILS validation together with a Range whose specs are all unsatisfiable: 416 instead of the complete 200", []),
+ "C15-5": ("/tmp/seeds5/A/3", "C15", "streaming_body + HEAD + gzip accepted + with_gzip_level(0): HEAD claims Content-Encoding: gzip, GET sends identity", ["C17"]),
+ "C13-4": ("/tmp/seeds5/B/1", "C13", "a Range list element that is non-empty but only spaces/tabs (bytes=0-1, ,3-4 / 'bytes= '): slice with start > end, serve() panics", []),
+ "C14-4": ("/tmp/seeds5/B/2", "C14", "strong ETag echoed in If-Range + a multi-range Range whose estimate forces the complete-200 fallback: that 200 carries none of the entity's headers", []),
+ "C20-4": ("/tmp/seeds5/B/3", "C20", "multipart body whose SECOND or later part reports an error, then one more poll: ranges freed early, index out of bounds", []),
+ "C16-4": ("/tmp/seeds5/C/1", "C16", "`*` BEFORE an explicit gzip / identity element that matters (*, gzip;q=0): scan stops once both have a quality", ["C17"]),
+ "C16-5": ("/tmp/seeds5/C/2", "C16", "an UNWEIGHTED gzip / identity / * followed by space or tab before the comma or at the end (gzip , br): trailing whitespace kept, coding unknown", []),
+ "C17-4": ("/tmp/seeds5/C/3", "C17", "gzip level exactly 9 with gzip preferred: header says gzip, writer is raw (exclusive range 1..9)", []),
+ "C17-5": ("/tmp/seeds5/C/4", "C17", "method POST: Vary: accept-encoding missing (added only for GET/HEAD)", []),
+ "C18-5": ("/tmp/seeds5/D/1", "C18", "a file whose mtime differs from its ctime (set_modified, touch -d): last_modified()/ETag built from the inode-change time", []),
+ "C18-6": ("/tmp/seeds5/D/2", "C18", "same inode and length, mtimes related by k s - k ms (e.g. 0.999 s apart): secs*10^6 + nanos collides", []),
+ "C19-5": ("/tmp/seeds5/D/3", "C19", "a path of the form .//abs/path (or exactly ./): leading ./ stripped after validation, remaining /abs/path is absolute and escapes the base", []),
+ "C19-6": ("/tmp/seeds5/D/4", "C19", "auto_gzip(false) + gzip-preferring Accept-Encoding + existing .gz sibling: substitution happens anyway (and no Vary)", []),
+ "C03-7": ("/tmp/seeds5/E/1", "C03", "a SUFFIX spec after comma + SP/HTAB (bytes=0-1, -5): parse_pos skips the whitespace but suffix detection still looks at byte 0; header ignored", []),
+ "C04-6": ("/tmp/seeds5/E/2", "C04", "If-Match: * plus an If-Unmodified-Since earlier than the modification time: any_match returns None for both absent and *, caller evaluates the date", []),
+ "C10-8": ("/tmp/seeds5/E/3", "C10", "a consumer poll landing between the writer's take_waker() critical section and its publish critical section (flush or drop): parks, never woken", []),
+ "C11-6": ("/tmp/seeds5/E/4", "C11", "abort while the consumer is not inside poll_frame: size_hint exact(0) in the Err state and is_end_stream derived from it, so the body claims end-of-stream with the error pending", ["C12"]),
+})
+
 def sh(cmd, **kw):
     return subprocess.run(cmd, shell=True, capture_output=True, text=True, **kw)
 
@@ -121,7 +143,7 @@ def main():
         if not os.path.exists(f"{src}/patch.diff"):
             print(sid, "not delivered yet"); continue
         if not os.path.exists(log):
-            feat = "dir" if prop in ("C19",) else ""
+            feat = "dir" if prop in ("C19",) else ("verif-hooks" if sid in ("C10-8",) else "")
             r = sh(f"/verif/tools/confirm_seed.sh {src} {feat}")
             open(log, "w").write(r.stdout + r.stderr)
         text = open(log).read()
